@@ -106,6 +106,23 @@ class StmtMixin(CallMixin):
                     return [(NORMAL, None, s.set(name, T("list", z3.Concat(self.seq_term(c), z3.Unit(self.box(val))))))]
                 self.local_mutation_ok(name)
                 return self.lift_bind(self.ev(v.args[0], st), k)
+        # obj.field.append(e) on an object updated in place
+        if (isinstance(v, ast.Call) and isinstance(v.func, ast.Attribute) and v.func.attr == "append" and len(v.args) == 1
+                and isinstance(v.func.value, ast.Attribute) and isinstance(v.func.value.value, ast.Name)
+                and isinstance(st.env.get(v.func.value.value.id), Rec)):
+            oname, fname = v.func.value.value.id, v.func.value.attr
+
+            def kr(val, s):
+                rec = s.env[oname]
+                cur = rec.fields.get(fname)
+                if cur is None:
+                    raise Unsupported(f"append to unset field {fname}")
+                if isinstance(cur, T) and cur.kind == "V":
+                    self.oblige(s, "safety:append", self.is_kind(cur, ["VList"]))
+                new = T("list", z3.Concat(self.seq_term(cur), z3.Unit(self.box(val))))
+                return self.assign(ast.Attribute(value=ast.Name(id=oname, ctx=ast.Load()), attr=fname, ctx=ast.Store()), new, s)
+
+            return self.lift_bind(self.ev(v.args[0], st), kr)
         if isinstance(v, ast.Call) and isinstance(v.func, ast.Attribute) and v.func.attr == "shuffle" and isinstance(v.func.value, ast.Name) and v.func.value.id == "random":
             if len(v.args) == 1 and isinstance(v.args[0], ast.Name):
                 return self.shuffle_local(v.args[0].id, st)
@@ -227,6 +244,15 @@ class StmtMixin(CallMixin):
         return self.lift_bind(self.ev(node.value, st), lambda v, s: self.assign(node.target, v, s))
 
     def st_AugAssign(self, node, st):
+        tgt = node.target
+        if isinstance(tgt, ast.Attribute) and isinstance(tgt.value, ast.Name) and isinstance(st.env.get(tgt.value.id), Rec):
+            # field of an object updated in place: obj.f op= e
+            load = ast.Attribute(value=ast.Name(id=tgt.value.id, ctx=ast.Load()), attr=tgt.attr, ctx=ast.Load())
+
+            def kf(vs, s):
+                return self.lift_bind(self.binop(node.op, vs[0], vs[1], s, node), lambda v, s2: self.assign(tgt, v, s2))
+
+            return self.lift_bind(self.ev_seq([load, node.value], st, lambda vs, s: [(OK, vs, s)]), kf)
         if not isinstance(node.target, ast.Name):
             raise Unsupported("augmented assignment to non-name")
         load = ast.Name(id=node.target.id, ctx=ast.Load())
